@@ -116,7 +116,7 @@ def rule_unchecked_feed(ctx):
             if is_max(idx):
                 ctx.ok(site(fn, bi, si), "placeholder Match (idx = u32::MAX)")
                 continue
-            if not fn.path.startswith("worker::Worker::<T>::"):
+            if not fn.path.startswith("worker::Worker::<T>::") and not str(fn.b.get("root") or "").startswith("worker::Worker::<T>::"):
                 ctx.violation(key, site(fn, bi, si), "Match constructed outside the worker")
                 continue
             if fn.path == "worker::Worker::<T>::reset_matches::{closure#0}":
@@ -142,6 +142,12 @@ def rule_unchecked_feed(ctx):
                     some = True
                 if e[0] == "call" and str(e[1]).endswith("::is_some") and g[2] in ([None], [1]):
                     some = True
+            if not some and fn.b.get("kind") == "Closure" and fn.arg_count >= 2:
+                # the closure receives `(idx, item)` with the item itself, not an Option: the producer yields published items only
+                aty = fn.b["locals"][2].get("ty", "")
+                if "Item<" in aty and "Option<" not in aty and any(x[0] == "arg" and x[1] == 2 for x in walk(idx)):
+                    ctx.ok(site(fn, bi, si), "Match{idx} built from an (idx, Item) pair: the index came with its published item")
+                    continue
             if some:
                 ctx.ok(site(fn, bi, si), "Match{idx} constructed only on the Some(item) branch")
             else:
@@ -593,7 +599,7 @@ def rule_score_source(ctx):
                 ctx.ok(site(fn, bi, si), "score computed from the columns of the item yielded with / looked up by this match's index")
             else:
                 ctx.violation("%s|Match.score|item" % fn.path, site(fn, bi, si), "cannot relate the scored columns (%s) to the stored index" % show(cols))
-    ctx.floor("Match.score write sites", n, 7)
+    ctx.floor("Match.score write sites", n, 3)
 
 
 def rule_borrow_witness(ctx):
